@@ -181,5 +181,16 @@ func (m *Mux) serveGRPCWeb(w http.ResponseWriter, r *http.Request) {
 
 	ww := newWebWriter(w, typ, enc)
 	m.serveGRPC(ww, r)
+	if !ww.wroteHeader && !ww.wroteResp {
+		// Trailers-only response: browsers cannot read HTTP trailers, the
+		// trailer metadata travels with the headers like the status.
+		hdr := w.Header()
+		for key, val := range hdr {
+			if k := strings.TrimPrefix(key, http.TrailerPrefix); k != key {
+				delete(hdr, key)
+				hdr[k] = append(hdr[k], val...)
+			}
+		}
+	}
 	ww.flushWithTrailer()
 }
